@@ -85,6 +85,15 @@ def regenerate():
                          f"(* translator failed: {status['T-blocks']} *)\n"
                          "Definition translator_failed : False := I.\n")
     try:
+        from translator import lookups as T8
+        write_if_changed(os.path.join(GEN, "Lookups.v"), T8.translate(REPO))
+        status["T-lookups"] = None
+    except Exception as e:
+        status["T-lookups"] = f"{type(e).__name__}: {e}"
+        write_if_changed(os.path.join(GEN, "Lookups.v"),
+                         f"(* translator failed: {status['T-lookups']} *)\n"
+                         "Definition translator_failed : False := I.\n")
+    try:
         from translator import initvars as T7
         write_if_changed(os.path.join(GEN, "InitVars.v"), T7.translate(REPO))
         status["T-initvars"] = None
